@@ -721,8 +721,8 @@ func init() {
 	vh.Enum("prefixes", enumPrefixes, judgeText)
 	vh.Enum("trailing_tokens", enumTrailers, judgeText)
 	vh.Custom("scalars", runScalars, replayScalar)
-	vh.Rapid("values", 50_000, 3_200_000, genValueCase, judgeValue)
-	vh.Rapid("malformed", 30_000, 2_000_000, genMalformed, judgeText)
-	vh.Rapid("injective", 20_000, 1_000_000, genPairCase, judgePair)
+	vh.Rapid("values", 150_000, 12_800_000, genValueCase, judgeValue)
+	vh.Rapid("malformed", 80_000, 6_400_000, genMalformed, judgeText)
+	vh.Rapid("injective", 50_000, 4_800_000, genPairCase, judgePair)
 	fuzzCanonical = vh.FuzzTarget("FuzzCanonical", judgeFuzz)
 }
